@@ -110,8 +110,12 @@ def run_pipeline(case):
             # every third replicate predicts in several chunks with a short last one
             sizes = {"CHUNK_SIZE_ROWS_PREDICTION": int(0.37 * len(tab["df"]))} if r % 3 == 2 else {}
             with core.chunk_sizes(**sizes):
+                # every fourth replicate trains / predicts with several workers under a perturbed task schedule
+                w = 3 if r % 4 == 1 else 1
                 out = pipeline.run_brew([path], learner=case["learner"], folds=case["folds"], seed=int(rng.integers(1 << 30)),
-                                        test_fdr=0.05, train_fdr=0.05, max_iter=3, subset_max_train=cap)
+                                        test_fdr=0.05, train_fdr=0.05, max_iter=3, subset_max_train=cap, max_workers=w,
+                                        delay=0.003 if w > 1 else 0.0, perturb=int(rng.integers(1 << 30)))
+                res.count("task_kinds_finished_out_of_order", out.get("sched_out_of_order", 0))
             res.count("replicates")
             if out["status"].startswith("crash"):
                 res.violate("crash", out["sig"], msg=out["error"]["msg"], design=case["design"], learner=case["learner"])
